@@ -77,6 +77,7 @@ def run(repo, rep, tier):
     r4 = rep.rule('C07.R4', 'canonical form folds every name component')
     r5 = rep.rule('C07.R5', 'case()/case_sorted() consistent with equality')
     nested_reference_rule(repo, rep)
+    keybinding_tokeniser_rule(repo, rep)
     inm = repo.cls(OBJ, 'CIMInstanceName')
     cnm = repo.cls(OBJ, 'CIMClassName')
 
@@ -545,3 +546,72 @@ def nested_reference_rule(repo, rep):
     probe = ast.parse("if ':' in cimval:\n    pass").body[0].test
     if not _content_tests(probe, True, {'cimval'}):
         raise AnalysisError('C07.R6 guard recogniser broken')
+
+
+def keybinding_tokeniser_rule(repo, rep):
+    """C07.R7: from_wbem_uri() validates the keybindings with a pattern built
+    from the quote-aware value pattern _KB_VAL and then cuts the repeated
+    group into `name=value` pieces.  The cutting step must use the same
+    value pattern: a separator that does not know about quoting (a split at
+    commas, a look-ahead for `,name=`) cuts inside quoted values, so a URI
+    that to_wbem_uri() printed - a string key containing `,x=`, or a
+    reference key whose target has two keys - is rejected or mis-parsed."""
+    from ..model import fold_const, NotConst, module_env
+    r7 = rep.rule('C07.R7', 'keybindings are cut with the quote-aware value '
+                  'pattern that validated them')
+    mod = repo.module(OBJ)
+    inm = repo.cls(OBJ, 'CIMInstanceName')
+    f = inm.methods.get('from_wbem_uri')
+    if f is None:
+        raise AnalysisError('CIMInstanceName.from_wbem_uri vanished')
+    r7.functions.add(f.fq)
+    try:
+        kbval = fold_const(mod.consts['_KB_VAL'], module_env(repo, mod))
+    except (KeyError, NotConst):
+        kbval = None
+    if not kbval:
+        raise AnalysisError('_KB_VAL not resolvable')
+    # which local holds the match of the keybindings pattern
+    cut_calls = []
+    for c in walk_no_nested(f.node):
+        if not isinstance(c, ast.Call) or \
+                not isinstance(c.func, ast.Attribute):
+            continue
+        if c.func.attr in ('findall', 'finditer', 'split', 'sub', 'scanner') \
+                and c.args and any(
+                    isinstance(x, ast.Call) and
+                    isinstance(x.func, ast.Attribute) and
+                    x.func.attr == 'group' for x in ast.walk(c.args[-1])):
+            cut_calls.append(c)
+        elif c.func.attr in ('split', 'partition', 'rsplit') and \
+                isinstance(c.func.value, ast.Call) and \
+                isinstance(c.func.value.func, ast.Attribute) and \
+                c.func.value.func.attr == 'group':
+            cut_calls.append(c)
+    if not cut_calls:
+        raise AnalysisError('from_wbem_uri: the step that cuts the repeated '
+                            'keybinding group was not found')
+    for c in cut_calls:
+        r7.sites += 1
+        pat = None
+        recv = c.func.value
+        if isinstance(recv, ast.Name):
+            rc = regex_const(repo, f, recv)
+            pat = rc[0] if rc else None
+        elif dotted(recv) == 're' and c.args:
+            rc = regex_const(repo, f, c.args[0])
+            pat = rc[0] if rc else None
+        ok = pat is not None and kbval in pat and \
+            c.func.attr in ('findall', 'finditer')
+        r7.ob(ok, norm(c, 60), {'pattern': pat, 'method': c.func.attr})
+        if not ok:
+            rep.finding(r7, f.qualname, norm(c, 70), 'quote-unaware-cut', OBJ,
+                        c.lineno,
+                        'the repeated keybinding group is cut with %s(%s), '
+                        'which does not contain the quote-aware value '
+                        'pattern _KB_VAL the validation used: a quoted '
+                        'value containing `,name=` (a string key, or a '
+                        'reference key whose target has several keys) is '
+                        'cut in the middle and the URI pywbem itself '
+                        'printed is rejected'
+                        % (c.func.attr, repr(pat) if pat else norm(recv)))
